@@ -10,13 +10,14 @@ DRIVER = "Driver/C13.lean"
 THEOREMS = [
     "C13_init",
     "C13_step",
+    "C13_state_always_wf",
     "C13_history",
     "C13_rejected_unchanged",
+    "C13_replace_refused_unchanged",
     "C13_one_parent",
     "C13_rank",
     "C13_cycle_caught",
-    "C13_no_unreachable",
-    "C13_accepted_partial",
+    "C13_remove_any_variant",
     "C13_reparent_witness",
     "C13_unparent_witness",
     "C13_rejected_reparent_witness",
@@ -25,6 +26,7 @@ THEOREMS = [
     "C13_workflow_child_witness",
     "C13_self_adoption_witness",
     "C13_false_cycle_witness",
+    "C13_replace_false_cycle_witness",
 ]
 RULE = (
     "seeded random histories (4-28 ops) over 2-5 composites (strict/non-strict workflows, macros, a macro "
